@@ -124,4 +124,25 @@ CHECKS = {
         eval_counter="fault_deliveries",
         jobs=[dict(test="TestC16", quick=T(8, 8), thorough=T(16, 40, 0, 3000))],
     ),
+    "C12": dict(
+        level="exploration",
+        level_text="(a) pow.CheckPoWNonce against a math/big reference over difficulties from the full 64-bit range (constants, "
+                   "2^k and 2^k+-1 for all k, uniform) and nonces that are random or MINED by the checker for small "
+                   "difficulties so that acceptance is exercised. (b) Stateful: accounts with fused amounts around the unit / "
+                   "cap boundaries, generated histories plus blocks with chosen FusedPlasma / Difficulty / nonce (mined, "
+                   "arbitrary, or mined for a smaller difficulty than claimed); every block the node accepted is checked "
+                   "against the statement: PoW honoured only above the threshold, total >= base cost, total <= cap, fused <= "
+                   "plasma of the QSR fused as of the acknowledged momentum minus fused plasma of the account's blocks after "
+                   "that state.",
+        level_note="Direction is 'accepted => paid' only (the statement's). Base cost of embedded calls is bounded below by the "
+                   "cheapest method (52 500); exact for transfers and receives. Fused QSR per beneficiary is read through the "
+                   "node's momentum store (its equality with the fusion entries is C10's).",
+        technique="property-based testing against a big-integer reference (rapid) + stateful testing with a per-block predicate",
+        rule="(a) batch of 200 (difficulty, nonce, address, previous) tuples per case; non-trivial tuple = d>=2 and (d>=2^32 or the "
+             "reference accepts the pair). (b) C01 grammar + custom-plasma blocks; non-trivial = case where a checked block had "
+             ">=2 unconfirmed predecessors and >=1 custom-plasma block was offered",
+        assumptions=HIST_ASSUME,
+        jobs=[dict(test="TestC12Pow", quick=T(4, 12), thorough=T(8, 400, 0, 3000)),
+              dict(test="TestC12Plasma", quick=T(4, 20, 50), thorough=T(8, 200, 80, 3000))],
+    ),
 }
